@@ -7,7 +7,10 @@ chunk, sets the producer-finished flag, stores the error) takes the parked waker
 under the same lock and wakes it on the Some edge; (R3) Pending is returned only
 on that one row -- every row with the producer finished or a non-live state
 returns Ready; (R4) the writer's Drop reaches a publish, the file has one mutex
-with five lock sites and no nested acquisition.  Does not decide: real schedules,
+with five lock sites and no nested acquisition; (R5) the reader never reports
+end-of-stream while chunks or an abort error are undelivered (a consumer that
+trusts the flag, as hyper does, stops polling and would never observe them).
+Does not decide: real schedules,
 the bound on polls, wakers that misbehave (these need an exploration of
 interleavings, which is outside this technique)."""
 from . import chunker as CH
@@ -24,3 +27,4 @@ def run(ctx):
     CH.publish_rules(ctx, "C10.R4.publish", "C10.R4.nonempty", "C10.R4.flag")
     CH.lock_discipline(ctx, "C10.R4")
     CH.critical_sections_panic_free(ctx, "C10.R4.nopanic")
+    CH.end_stream_table(ctx, "C10.R5")
